@@ -206,6 +206,7 @@ type VC struct {
 	rets      []inlRet
 	defers    []deferRec
 	hdrBefore map[*ssa.BasicBlock]map[string]TV
+	hdrLoopHeap map[*ssa.BasicBlock]*Heap
 	hdrDecr   map[*ssa.BasicBlock]string
 	varOut    map[*ssa.BasicBlock]map[string]ssa.Value
 	addrOut   map[*ssa.BasicBlock]map[string]ssa.Value
